@@ -251,7 +251,7 @@ theorem assembleText_path_error_numbered (fs : FS) (cwd : String) (includeDirs :
           · split at hr
             · subst hr; exact ReadOK.unsupported
             · subst hr
-              refine (readLinesAux_numbered fs includeDirs (fs.files.length + 2) p (pathDirname p) _).mono ?_
+              refine (readLinesAux_numbered fs includeDirs (fs.files.length + 2) p (baseOf p) _).mono ?_
               intro l hl
               rcases hl with hq | hq
               · exact ⟨p, _, _, by assumption, by assumption, hq⟩
@@ -462,10 +462,8 @@ theorem missing_include_reported (fs : FS) (dirs : List String) (fuel : Nat) (pa
       .error (.asm { file := path, number := pre.length + 1, contents := String.ofList raw }) :=
   readLinesAux_missing_include fs dirs fuel path base src pre raw post hsplit hpre hraw
 
-/-- `nop / (blank) / include missing_file.asm / nop` in /p/inc/lib.asm: line 3 of that file.
-    (`normRel` goes through `String.splitOn`, which the kernel cannot evaluate; the path-form test is
-    therefore a hypothesis of this example and is checked by evaluation in the `#guard` below.) -/
-example (hrel : normRel "missing_file.asm" = true) :
+/-- `nop / (blank) / include missing_file.asm / nop` in /p/inc/lib.asm: line 3 of that file -/
+example :
     readLinesAux ⟨[], ["/", "/p", "/p/inc"]⟩ [] 3 "/p/inc/lib.asm" "/p/inc"
       "nop\n\ninclude missing_file.asm\nnop\n".toList =
     .error (.asm ⟨"/p/inc/lib.asm", 3, "include missing_file.asm"⟩) :=
@@ -474,10 +472,6 @@ example (hrel : normRel "missing_file.asm" = true) :
                     rcases hr with rfl | rfl
                     · right; decide
                     · left; decide)
-    ⟨by decide, by decide, "include".toList, "missing_file.asm".toList, by decide,
-     by rw [show String.ofList (stripQuotes "missing_file.asm".toList) = "missing_file.asm" from by decide, hrel]; rfl,
-     by decide⟩
-
-#guard normRel "missing_file.asm"
+    ⟨by decide, by decide, "include".toList, "missing_file.asm".toList, by decide, by decide, by decide⟩
 
 end BB.Props.C15
